@@ -15,10 +15,11 @@ type extraFn struct {
 	Ver    int
 	Name   string
 	Recv   int      // 1: method of the version's object type
-	Params []string // "string" | "int" | "float" | "bool" | "bytes"
+	Params []string // "string" | "int" | "float" | "bool" | "bytes" | "any" | "strs" | "obj" | "objptr"
 	// Call returns the results and the byte buffers it passed in (the
 	// caller's own buffers, which it is free to reuse afterwards).
-	Call func(obj unsafe.Pointer, a []string) ([]any, [][]byte)
+	// objs: the objects for parameters of the version's own type, in order.
+	Call func(obj unsafe.Pointer, a []string, objs []unsafe.Pointer) ([]any, [][]byte)
 }
 
 // extraAny makes the argument for an interface{} parameter from its textual
@@ -40,6 +41,14 @@ func extraBytes(in *[][]byte, s string) []byte {
 	b := []byte(s)
 	*in = append(*in, b)
 	return b
+}
+
+// extraStrs makes the argument for a []string parameter (elements joined by \x1e).
+func extraStrs(s string) []string {
+	if s == "" {
+		return nil
+	}
+	return strings.Split(s, "\x1e")
 }
 
 var extraAPI []extraFn
